@@ -64,6 +64,7 @@ func cmdRand(args []string) {
 				if r.Intn(3) == 0 {
 					c.Pre = []gh.Tok{}
 				}
+				c.PreEarly = r.Intn(2) == 0
 			}
 			if p.Comp {
 				c.Comp = []string{"bash", "zsh"}[r.Intn(2)]
